@@ -265,6 +265,9 @@ func (w *watchers) handlersIngress() []*hdlr {
 		{
 			typ: &networking.IngressClass{},
 			res: types.ResourceIngressClass,
+			// an IngressClass change can select ingresses that were never
+			// parsed, hence never tracked: a partial sync cannot find them
+			full: true,
 			pr: []predicate.Predicate{
 				predicate.GenerationChangedPredicate{},
 				predicate.Funcs{
